@@ -1,6 +1,7 @@
 package main
 
 import (
+	"fmt"
 	"strings"
 
 	"github.com/hack-pad/hackpadfs"
@@ -23,6 +24,11 @@ func mkfs(kind string) func() (hackpadfs.FS, func(), error) {
 }
 
 func init() {
+	commands["mask-kinds"] = func([]string) {
+		for _, k := range fsad.MaskKinds {
+			fmt.Println(k)
+		}
+	}
 	// FSCore.tla: namespace operations
 	modules["fscore"] = func(kind string, o *Opts) engine.Adapter {
 		if strings.HasPrefix(kind, "sub=") {
@@ -38,6 +44,14 @@ func init() {
 			sc.Config = fsad.Config{AdapterName: kind, PropState: o.attr("state", "-"), PropErr: o.attr("err", "C05"), PropWF: o.attr("wf", "-"),
 				PropList: o.attr("list", "C16"), Names: o.Names, Depth: o.Depth}
 			return &fsad.SubAdapter{Cfg: sc}
+		}
+		if strings.HasPrefix(kind, "mask=") || strings.HasPrefix(kind, "fault=") {
+			// mask=<group:members>=<base>: package helpers on a capability-masked FS (C08); fault= adds fault enumeration
+			parts := strings.Split(kind, "=")
+			mc := fsad.MaskConfig{PropHelper: o.attr("helper", "C08"), Kind: parts[1], Base: parts[2], Faults: parts[0] == "fault"}
+			mc.Config = fsad.Config{AdapterName: kind, PropState: o.attr("state", "C08"), PropErr: o.attr("err", "C08"), PropErrPath: o.attr("errpath", "C05"),
+				PropWF: o.attr("wf", "-"), PropList: o.attr("list", "C16"), Names: o.Names, Depth: o.Depth}
+			return &fsad.MaskAdapter{Cfg: mc}
 		}
 		cfg := fsad.Config{AdapterName: kind, PropState: o.attr("state", "C01"), PropErr: o.attr("err", "C05"), PropWF: o.attr("wf", "C03"),
 			PropList: o.attr("list", "C16"), Names: o.Names, Depth: o.Depth, MkFS: mkfs(kind), CheckRootName: kind != "osref"}
